@@ -159,13 +159,14 @@ func (p *pkgIdx) inlined(fn string) []string {
 // ---- what a store writes ----------------------------------------------------------
 
 // rootClass classifies the variable an lvalue (or a mutator's receiver) is rooted at:
-//   recv:<T>      the method receiver
-//   param:<type>  a parameter of the enclosing function
-//   global:<name> a package-level variable
-//   local         a variable of this function that holds a value made here (make, new, composite
-//                 literal, call result, arithmetic), or an alias of one
-//   alias:<class> a local defined from a field, element, slice or type assertion of something
-//                 of class <class> that is not local
+//
+//	recv:<T>      the method receiver
+//	param:<type>  a parameter of the enclosing function
+//	global:<name> a package-level variable
+//	local         a variable of this function that holds a value made here (make, new, composite
+//	              literal, call result, arithmetic), or an alias of one
+//	alias:<class> a local defined from a field, element, slice or type assertion of something
+//	              of class <class> that is not local
 type fnScope struct {
 	p    *pkgIdx
 	fd   *ast.FuncDecl
@@ -574,7 +575,9 @@ func renameIdents(e ast.Expr, ren map[string]string) string {
 	// token-wise replacement
 	var b strings.Builder
 	i := 0
-	isId := func(c byte) bool { return c == '_' || c >= 'a' && c <= 'z' || c >= 'A' && c <= 'Z' || c >= '0' && c <= '9' }
+	isId := func(c byte) bool {
+		return c == '_' || c >= 'a' && c <= 'z' || c >= 'A' && c <= 'Z' || c >= '0' && c <= '9'
+	}
 	for i < len(s) {
 		if isId(s[i]) {
 			j := i
